@@ -367,12 +367,15 @@ Quiescent(S) == S.last.k # "running"
 (* how often record id has been handed to an Elasticsearch store (put there, or bulk_add-ed to race control's store) *)
 EsAdded(h, id) == (IF TypeOf(h.recs[id].home) = "es" THEN 1 ELSE 0) + (IF TypeOf("rc") = "es" THEN CountId(h.xfer, id) ELSE 0)
 
-(* nothing is lost: every record ever put is still in a store, in transit, in the index - or was dropped by a re-open *)
+(* nothing is lost: between store calls, every record ever put is still in a store, in transit, in the index - or was dropped by a  *)
+(* re-open.  (While a flush is running the records being sent may be in flight.)                                                    *)
 NoLoss(S, h) ==
-    \A id \in AllIds(h) : SumBuf(S, Stores, id) + SumWire(S.wire, id) + CountId(S.idx, id) + CountId(h.dropped, id) >= 1
+    Quiescent(S) =>
+       \A id \in AllIds(h) : SumBuf(S, Stores, id) + SumWire(S.wire, id) + CountId(S.idx, id) + CountId(h.dropped, id) >= 1
 (* stronger, for Elasticsearch stores: what was handed to them is in a buffer or in the index *)
 EsNoLoss(S, h) ==
-    ~h.extNoClear => \A id \in AllIds(h) : SumBuf(S, EsStores, id) + CountId(S.idx, id) + CountId(h.dropped, id) >= EsAdded(h, id)
+    (Quiescent(S) /\ ~h.extNoClear) =>
+       \A id \in AllIds(h) : SumBuf(S, EsStores, id) + CountId(S.idx, id) + CountId(h.dropped, id) >= EsAdded(h, id)
 (* a buffer is only ever dropped (by open() re-initialising it) after an error has surfaced *)
 DropOnlyAfterError(S, h) == h.dropped # <<>> => h.raised
 (* nothing is stored twice: the index holds a record at most as often as it was handed to an Elasticsearch store *)
@@ -459,11 +462,12 @@ Holds(c, S, h) ==
       [] c = "OpenOk" -> OpenOk(S, h)
 Failing(S, h) == {c \in StateClauses : ~Holds(c, S, h)}
 
-(* a _bulk request carries records of the buffer, unaltered, to the index named after the race's year and month *)
+(* a _bulk request carries records unaltered, to the index named after the race's year and month (".new" only when opened for reading) *)
 RequestOk(S, h, req) ==
     /\ IntactSeq(req.recs, h)
-    /\ \A i \in DOMAIN req.recs : Count(S.store[S.call.s].docs, req.recs[i].id) >= 1
     /\ req.index = S.store[S.call.s].index
+(* in the code as it is the records of a request are (still) in the buffer *)
+RequestFromBuffer(S, req) == \A i \in DOMAIN req.recs : Count(S.store[S.call.s].docs, req.recs[i].id) >= 1
 
 InvNoLoss == NoLoss(Sys, hist)
 InvEsNoLoss == EsNoLoss(Sys, hist)
@@ -483,7 +487,7 @@ InvOpenOk == OpenOk(Sys, hist)
 (* what the code does when a flush finally raises: the buffer is exactly what it was (model-level statement, not an L1 clause) *)
 RaiseKeepsBuffer == [][(last'.k = "raised") => \A s \in Stores : store'[s].docs = store[s].docs]_vars
 (* every _bulk request the model sends satisfies RequestOk *)
-RequestsOk == [][(act'.name = "BulkReq") => RequestOk(Sys, hist, act'.req)]_vars
+RequestsOk == [][(act'.name = "BulkReq") => (RequestOk(Sys, hist, act'.req) /\ RequestFromBuffer(Sys, act'.req))]_vars
 
 TypeOK == /\ call.op \in {"none", "flush", "close"}
           /\ (call.op = "none") = (last.k # "running")
